@@ -409,6 +409,8 @@ def _one_directive(src, toks, s, e, kwi, kw, body_open, start, end, path, name, 
     rules_used.add('R6')
   elif name == 'attr':
     attrs.append(arg.strip())
+  elif name == 'keeppub':
+    pass
   else:
     raise ExtractError('unknown directive @%s' % name)
 
@@ -462,8 +464,11 @@ def extract_item(repo, relfile, path, subs, rules_used, src_override=None):
   start, end = toks[s][2], toks[e][3]
   kw = toks[kwi][1]
   edits = []
-  # R1: drop visibility everywhere in the item (signature, struct fields)
+  # R1: drop visibility everywhere in the item (signature, struct fields); `//@keeppub` keeps it (items
+  # emitted inside a `mod` of the unit)
   j = s
+  if any(x[0] == 'keeppub' for x in subs):
+    j = e + 1
   while j <= e:
     t = toks[j]
     if t[0] == 'id' and t[1] == 'pub':
